@@ -32,6 +32,6 @@ m["engines"] = [dict(name="pyvc", path="/verif/pyvc", serves_properties=sorted(p
 m["notes"] = ("see DESIGN.md (section 0 = as built); exit codes: 0 held, 1 violation, 2 undecided (unknown, unsupported construct, lost contract "
               "anchor, proof failed after a loop under invariant changed shape), 3 checker crash (incl. a disagreement of the engine "
               "differential tools/engine_diff.py, which every check with deductive units runs); known findings: known_findings.json; "
-              "independent test material: seeded/ (318 seeded defects from eight rounds, seeded/DETECTION.md) and refactorings/ (behaviour-preserving edits from two rounds)")
+              "independent test material: seeded/ (317 seeded defects from eight rounds, seeded/DETECTION.md) and refactorings/ (behaviour-preserving edits from two rounds)")
 json.dump(m, open(os.path.join(HERE, "MANIFEST.json"), "w"), indent=1)
 print("claimed:", [c["property_id"] for c in checks])
